@@ -25,6 +25,9 @@ def dhcp4 : List String := ["delete s.leases", "delete s.leasesByCircuitID", "po
   "s.loader.RemoveSubscriber", "s.loader.RemoveVLANSubscriber", "s.loader.RemoveCircuitIDMapping",
   "s.loader.RemoveCircuitIDSubscriber"]
 
+def subMgr : List String := ["m.allocator.ReleaseIPv4", "m.allocator.ReleaseIPv6", "delete m.byMAC",
+  "delete m.byIP", "delete m.sessions", "m.emitEvent"]
+
 /-- what each termination entry point has to reach -/
 def required : List (String × List String) := [
   ("pppoe.Server.handlePADT", pppoeSrv),
@@ -36,17 +39,34 @@ def required : List (String × List String) := [
   ("pppoe.SessionTeardown.TerminateSession", "t.sendPADT" :: pppoeTd),
   ("pppoe.SessionTeardown.HandleClientPADT", pppoeTd),
   ("pppoe.SessionTeardown.TerminateAll", "t.sendPADT" :: pppoeTd),
+  ("pppoe.SessionTeardown.TerminateByID", "t.sendPADT" :: pppoeTd),
+  ("pppoe.SessionTeardown.TerminateByMAC", "t.sendPADT" :: pppoeTd),
+  ("pppoe.SessionTeardown.TerminateByUsername", "t.sendPADT" :: pppoeTd),
+  -- shutdown: every live session would have to be ended (the server only closes its socket)
+  ("pppoe.Server.Stop", ["s.clientIPPool.Release", "s.sessions.RemoveSession"]),
   ("dhcp.Server.handleRelease", dhcp4),
   ("dhcp.Server.handleDecline", "pool.MarkUnavailable" :: dhcp4),
   ("dhcp.Server.cleanupExpiredLeases", dhcp4),
-  ("subscriber.Manager.TerminateSession", ["m.allocator.ReleaseIPv4", "m.allocator.ReleaseIPv6", "delete m.byMAC",
-     "delete m.byIP", "delete m.sessions", "m.emitEvent"])
+  ("subscriber.Manager.TerminateSession", subMgr),
+  ("subscriber.Manager.cleanupExpiredSessions", subMgr),
+  -- shutdown: the manager only stops its background loop
+  ("subscriber.Manager.Stop", subMgr)
 ]
 
 /-- (entry point, effect, finding): releases the code does not perform, recorded as findings -/
-def knownGaps : List (String × String × String) := [
-  ("pppoe.Server.cleanupLoop", "s.clientIPPool.Release", "KF-pppoe-idle-leak")
-]
+def knownGaps : List (String × String × String) :=
+  [("pppoe.Server.cleanupLoop", "s.clientIPPool.Release", "KF-pppoe-idle-leak"),
+   ("pppoe.Server.Stop", "s.clientIPPool.Release", "KF-shutdown-no-teardown"),
+   ("pppoe.Server.Stop", "s.sessions.RemoveSession", "KF-shutdown-no-teardown")] ++
+  subMgr.map fun e => ("subscriber.Manager.Stop", e, "KF-shutdown-no-teardown")
+
+/-- functions above the entry points: they only dispatch to them (packet type switch, ticker loop) -/
+def dispatchers : List String := ["dhcp.Server.handleDHCP", "dhcp.Server.leaseCleanup"]
+
+def reachOf (p : String) : List String :=
+  match reach.find? (·.1 == p) with
+  | some e => e.2
+  | none => []
 
 def effectsOf (tbl : List (String × List String)) (p : String) : List String :=
   match tbl.find? (·.1 == p) with
@@ -64,6 +84,17 @@ theorem every_entry_point_extracted : required.all (fun r => paths.any (·.1 == 
 
 /-- every termination path reaches every release its session type needs (recorded gaps excepted) -/
 theorem every_termination_path_releases : missing paths = [] := by decide
+
+/-- no session table is emptied behind the table's back: every function that deletes from a session table is reached
+    from a listed entry point -/
+theorem every_session_deleter_reached :
+    deleters.all (fun d => required.any (fun r => (reachOf r.1).contains d)) = true := by decide
+
+/-- a new termination path is noticed: every function that calls a deleter is a listed entry point, lies below one,
+    or is one of the two dispatchers -/
+theorem every_deleter_caller_accounted :
+    deleterCallers.all (fun c => dispatchers.contains c || required.any (fun r => (reachOf r.1).contains c)) = true := by
+  decide
 
 /-- the recorded gaps are still gaps: a gap that has been closed in the code must leave this list -/
 theorem known_gaps_are_real : knownGaps.all (fun g => !(effectsOf paths g.1).contains g.2.1) = true := by decide
